@@ -314,6 +314,13 @@ class ParallelBeamGeometry(Geometry):
         # [0, 1, ..., r-1, r+1] for `normal`, and the output axes are set to
         # [0, 1, ..., r-1, r]. This automatically supports broadcasting
         # along the axes 0, ..., r-1.
+        # For this to work, both arrays need the same number of such axes,
+        # which is achieved by adding axes of length 1 to the left.
+        extra_dims = (normal.ndim - 1) - (matrix.ndim - 2)
+        if extra_dims > 0:
+            matrix = matrix[(None,) * extra_dims]
+        elif extra_dims < 0:
+            normal = normal[(None,) * (-extra_dims)]
         matrix_axes = list(range(matrix.ndim))
         normal_axes = list(range(matrix.ndim - 2)) + [matrix_axes[-1]]
         out_axes = list(range(matrix.ndim - 1))
